@@ -9,8 +9,8 @@ Per check:
  (MBT) stored TLC counterexamples are replayed on the real code; fresh counterexamples of a violated
        model-checking run are replayed before anything is reported about the code.
  If the code no longer follows RaftCore (a run is rejected at a conformance condition) the check prints
- MODEL-DRIFT, re-validates all executions at property level (RaftTraceAbs: observed states taken as they are)
- and triples the schedule budget: a violation is only reported for an execution of the real code.
+ MODEL-DRIFT, re-validates all executions at property level (RaftTraceAbs: observed states taken as they are),
+ continues every drifting execution 40 times from the drifting step, and runs 8x the schedule budget: a violation is only reported for an execution of the real code.
 """
 import json
 import os
@@ -23,12 +23,15 @@ from vlib import log
 WALKS = {
     # property: list of (name, extra walk args, quick programs, thorough programs, steps, n_nodes)
     "C27": [("election", ["--w-append", 0, "--w-drop", 10, "--w-dup", 6, "--w-process", 26], 160, 2500, 200, 3),
+            ("partitions", ["--w-partition", 30, "--w-append", 3, "--w-drop", 4, "--w-dup", 4, "--w-process", 24], 80, 1500, 250, 3),
             ("election5", ["--w-append", 0, "--w-drop", 10, "--w-dup", 5, "--w-process", 24], 40, 600, 300, 5),
             ("mixed", [], 60, 1000, 200, 3)],
     "C28": [("replication", ["--w-drop", 12, "--w-dup", 4, "--max-appends", 8], 200, 3000, 250, 3),
-            ("replication5", ["--w-drop", 10, "--w-dup", 3, "--max-appends", 8], 40, 600, 300, 5)],
+            ("replication5", ["--w-drop", 10, "--w-dup", 3, "--max-appends", 8], 40, 600, 300, 5),
+            ("partitions", ["--w-partition", 25, "--w-drop", 4, "--w-dup", 3, "--max-appends", 8], 150, 2500, 300, 3)],
     "C29": [("replication", ["--w-drop", 14, "--w-dup", 3, "--w-process", 22, "--max-appends", 8], 200, 3000, 250, 3),
-            ("replication5", ["--w-drop", 10, "--w-dup", 3, "--w-process", 22, "--max-appends", 8], 40, 600, 300, 5)],
+            ("replication5", ["--w-drop", 10, "--w-dup", 3, "--w-process", 22, "--max-appends", 8], 40, 600, 300, 5),
+            ("partitions", ["--w-partition", 25, "--w-drop", 4, "--w-dup", 3, "--w-process", 20, "--max-appends", 8], 200, 3000, 300, 3)],
 }
 MC_CFG = {
     "C27": (["MCRaftElection_quick.cfg"], ["MCRaftElection.cfg"]),
@@ -110,8 +113,30 @@ def run_walks(prop, tier, vraft, work, verdict, stats, budget_factor=1):
                 % (prop, len(v["rejections"]), v["runs"], x["run"], x["event_index"], vlib.short(x["event"], 260)))
             stats["drift_samples"].append({"profile": name, "event": x["event"], "before": brief(x["prefix"][:-1], 6)})
             va = raftlib.validate(trace, cfg=cfg_for(n, True), tag=prop.lower() + name + "abs")
-            props = va["props"]
+            props = list(va["props"])
             stats["tlc_wall"] += va["wall"]
+            # Amplification: the step at which the code left the model is where its behaviour changed. Each such
+            # execution is re-run exactly up to that step and continued 40 times with a fresh random stream over a
+            # benign network, so that the consequences of that step unfold (a wrongly granted vote makes a leader one
+            # delivery later); the continuations are decided at property level like every other execution.
+            fork_files = []
+            for x in v["rejections"][:12]:
+                fo = os.path.join(pw, "fork_%d.ndjson" % x["run"])
+                r = vlib.run_bin(vraft, ["walk"] + args + ["--first", x["run"], "--programs", 1, "--fork-step", x["event_index"],
+                                                           "--fork-count", 40, "--fork-steps", 50, "--work", pw, "--out", fo], timeout=300)
+                if r.returncode != 0:
+                    raise vlib.ToolError("vraft walk (fork) failed: %s" % (r.stderr or "")[-300:])
+                fork_files.append(fo)
+            if fork_files:
+                ftrace = os.path.join(pw, "forks.ndjson")
+                vlib.concat_traces(fork_files, ftrace)
+                vf = raftlib.validate(ftrace, cfg=cfg_for(n, True), tag=prop.lower() + name + "fork")
+                log("[%s] %d continuations of the %d drifting executions: events=%d property-violations=%d" %
+                    (prop, vf["runs"], len(fork_files), vf["events"], len(vf["props"])))
+                stats["runs"] += vf["runs"]
+                stats["events"] += vf["events"]
+                stats["tlc_wall"] += vf["wall"]
+                props += vf["props"]
         stats["violations_seen"] += report_props(prop, verdict, props, "random schedules (%s)" % name)
         if not stats["samples"]:
             evs = vlib.read_ndjson(trace)
@@ -177,9 +202,9 @@ def run(prop, tier):
         drift = run_walks(prop, tier, vraft, work, verdict, stats)
         if drift:
             # the mechanism model no longer binds: triple the budget of executions decided at property level
-            log("[%s] model drift: running 3x the schedule budget, decided at property level" % prop)
+            log("[%s] model drift: running 8x the schedule budget, decided at property level" % prop)
             os.environ["VERIF_SEED"] = str(vlib.seed() + 1000)
-            run_walks(prop, tier, vraft, os.path.join(work, "more"), verdict, stats, budget_factor=3)
+            run_walks(prop, tier, vraft, os.path.join(work, "more"), verdict, stats, budget_factor=8)
             os.environ["VERIF_SEED"] = str(vlib.seed() - 1000)
         cov = {
             "states": stats["states"], "transitions": stats["transitions"],
